@@ -37,6 +37,14 @@ def apply_op(f, op, val):
     if k == "set":
         g, key = _target(f, op[1], op[2])
         g[key] = val
+    elif k == "setv":  # [setv, path, route, kind]: values that look like / border on the IH5 deletion marker
+        g, key = _target(f, op[1], op[2])
+        g[key] = special_value(op[3])
+    elif k == "sav":  # [sav, node, key, kind]
+        f[op[1]].attrs[op[2]] = special_value(op[3])
+    elif k in ("cpr", "mvr"):  # [cpr, parent, srckey, dstkey]: source AND destination relative to the parent group
+        g = f[op[1]]
+        (g.copy if k == "cpr" else g.move)(op[2], op[3])
     elif k == "setbig":  # a payload larger than typical I/O chunk sizes (op[3] = number of bytes)
         g, key = _target(f, op[1], op[2])
         n = int(op[3])
@@ -76,6 +84,22 @@ def apply_op(f, op, val):
         f.copy(op[1], op[2], **op[3])
     else:
         raise AssertionError(f"unknown op {op}")
+
+
+def special_value(kind):
+    import h5py
+
+    return {
+        "void1": np.void(b"A"),
+        "void2": np.void(b"\x7f\x7f"),
+        "void7e": np.void(b"\x7e"),
+        "int8_127": np.int8(127),
+        "uint8_127": np.uint8(127),
+        "bytes7f": np.bytes_(b"\x7f"),
+        "empty": h5py.Empty("f"),
+        "str": "x",
+        "marker": np.void(b"\x7f"),
+    }[kind]
 
 
 def val_repr(v):
